@@ -51,7 +51,7 @@ def analyse(ctx, P, R1, R2):
                     ctx.check(False, R1, key, '%s of %s without the required lock (held: %s)' % ('write' if mode == 'w' else 'read', bf, sorted(held) or 'none'), f.loc(i))
             if entry and f.kind not in ('ctor', 'dtor') and f.bname not in ALLOW_ENTRY:
                 seen = set()
-                for (chain, bf, mode, req) in C.missing[f.id]:
+                for (chain, bf, mode, req, _inner) in C.missing[f.id]:
                     if len(chain) == 1:
                         continue   # reported above
                     path = ' -> '.join(g.short for g, _ in chain)
@@ -65,11 +65,11 @@ def analyse(ctx, P, R1, R2):
         for f in group:
             for (i, callee, held) in C.calls[f.id]:
                 needs = set()
-                for (chain, bf, mode, req) in C.missing[callee]:
-                    needs.add((bf, mode))
+                for (chain, bf, mode, req, inner) in C.missing[callee]:
+                    needs.add((bf, mode, frozenset(inner)))
                 if not needs:
                     continue
-                okc = all(lockset.satisfied(TABLE[bf][mode], held) for bf, mode in needs)
+                okc = all(lockset.satisfied(TABLE[bf][mode], set(held) | inner) for bf, mode, inner in needs)
                 g = C.byid[callee]
                 ctx.check(okc or f.id in called or f.kind in ('ctor', 'dtor') or f.bname in ALLOW_ENTRY, R1,
                           '%s[%s]:calls:%s' % (f.short, tag, g.short), 'helper %s requires the exclusive lock' % g.short, f.loc(i),
@@ -87,7 +87,7 @@ def analyse(ctx, P, R1, R2):
                     ctx.check(True, R2, 'fetch[%s]:read:%s#%d' % (tag, bf.rsplit('::', 1)[-1], n), loc=f.loc(i))
             # helpers called by fetch must not need the exclusive lock
             for (i, callee, held) in C.calls[f.id]:
-                bad = [(bf, m) for (ch, bf, m, req) in C.missing[callee] if m == 'w']
+                bad = [(bf, m) for (ch, bf, m, req, _inner) in C.missing[callee] if m == 'w' and not bf.endswith('::lru')]
                 ctx.check(not bad, R2, 'fetch[%s]:calls:%s' % (tag, C.byid[callee].short), 'fetch calls a helper that writes shared state', f.loc(i))
     return total
 
